@@ -6,10 +6,11 @@
    (or raised), and - at snapshot points - the implementation's
    items(multi=True) and todict(multi=True) of BOTH objects.
 
-     agree := the model (Model.C01_Model) run on the history gives exactly that
+     agree := the list-level model (Model.C01_Model) AND the pointer-level model
+              (Model.C01_PModel: PREV/NEXT surgery on a heap) run on the history give exactly that
      holds := the plain pair-list reference (Spec.C01_Spec) gives exactly that
      known := false (no open finding)                                         *)
-From Boltons Require Import Lib.Prelude Spec.C01_Spec Model.C01_Model.
+From Boltons Require Import Lib.Prelude Spec.C01_Spec Model.C01_Model Model.C01_Ptr Model.C01_PModel.
 
 Inductive step := St (reg : bool) (o : op) (r : res out) (snap : option (view * view)).
 Definition c01_case := list step.
@@ -49,6 +50,15 @@ Fixpoint walk_model (st : mstate) (steps : list step) : bool :=
       && walk_model st' rest
   end.
 
+Fixpoint walk_pmodel (st : pmstate) (steps : list step) : bool :=
+  match steps with
+  | [] => true
+  | St reg o r snap :: rest =>
+      let '(st', x) := pm_step2 st reg o in
+      res_eqb out_eqb x r && snap_ok snap (pm_view (fst st')) (pm_view (snd st'))
+      && walk_pmodel st' rest
+  end.
+
 Fixpoint walk_spec (st : sstate) (steps : list step) : bool :=
   match steps with
   | [] => true
@@ -59,7 +69,7 @@ Fixpoint walk_spec (st : sstate) (steps : list step) : bool :=
   end.
 
 Definition c01_verdict (c : c01_case) : verdict :=
-  (walk_model (m_empty, m_empty) c, walk_spec ([], []) c, false).
+  (walk_model (m_empty, m_empty) c && walk_pmodel (pm_empty, pm_empty) c, walk_spec ([], []) c, false).
 
 (* what model and reference compute, for replay files *)
 Definition c01_explain (c : c01_case) :=
